@@ -111,6 +111,56 @@ theorem fold_binary_sound_partial (P : Cppcheck.Platforms.Platform) (t : Ty) (a 
 open Cppcheck.MiniC Cppcheck.VFV in
 example : inTy lp64 tUInt 7 ∧ inTy lp64 tUInt (7 + 5) ∧ uac lp64 tUInt tUInt = tUInt ∧ foldBinary .add 7 5 = some 12 := by decide
 
+/-! Part 2b: an Impossible value carried through a compound assignment (`ValueFlowAnalyzer::isWritable / writeValue`).
+    The code keeps the bound and replaces the value by `calculate(op, v, k)`; that is sound exactly when `x ↦ x op k` is
+    strictly monotone increasing (Lower/Upper bounds) resp. injective (Point). -/
+
+/-- `+= -= ++ --`: translations, sound for every bound and every `k` -/
+theorem carry_impossible_shift_sound (op : String) (hop : op = "+=" ∨ op = "-=" ∨ op = "++" ∨ op = "--") (b : IBound) (k v v' x : Int)
+    (hc : carryImpossible op k v = some v') (hin : inI64 (assignSem op k v)) (h : impHolds b v x) :
+    impHolds b v' (assignSem op k x) :=
+  carry_shift_sound op hop b k v v' x hc hin h
+
+/-- full statement for `*=` (every multiplier) … -/
+def CarryMulSound : Prop :=
+  ∀ (b : IBound) (k v v' x : Int), carryImpossible "*=" k v = some v' → inI64 (v * k) → impHolds b v x →
+    impHolds b v' (assignSem "*=" k x)
+
+/-- … is false of the code (finding F1h): `x >= 5; x *= -1;` keeps "never <= -4" (x = 5 gives -5); `x != 3; x *= 0;` gives
+    "never 0" (every x gives 0) -/
+theorem carry_impossible_mul_counterexample : ¬ CarryMulSound := by
+  intro h
+  have := h .upper (-1) 4 (-4) 5 (by decide) (by decide) (by decide)
+  revert this
+  decide
+
+theorem carry_impossible_mul_zero_counterexample : ¬ CarryMulSound := by
+  intro h
+  have := h .point 0 3 0 7 (by decide) (by decide) (by decide)
+  revert this
+  decide
+
+/-- `*=` with a positive multiplier is strictly monotone: sound -/
+theorem carry_impossible_mul_sound_partial (b : IBound) (k v v' x : Int) (hk : 0 < k)
+    (hc : carryImpossible "*=" k v = some v') (hin : inI64 (v * k)) (h : impHolds b v x) :
+    impHolds b v' (assignSem "*=" k x) :=
+  carry_mul_pos_sound b k v v' x hk hc hin h
+
+example : carryImpossible "*=" 2 0 = some 0 ∧ impHolds .upper 0 1 ∧ impHolds .upper 0 (assignSem "*=" 2 1) := by decide
+
+/-- `/=` (and every other operator outside `carryOps`) carries nothing … -/
+theorem carry_impossible_div_not_carried (k v : Int) : carryImpossible "/=" k v = none := by
+  simp [carryImpossible, carryOps]
+
+/-- … and must not: integer division is neither injective nor strictly monotone, so no value transform of the shape
+    `v ↦ v / k` with the same bound is sound (x ≠ 6 but 7/2 = 6/2; x > 0 but 1/2 = 0/2; x < 5 but 4/2 = 5/2) -/
+theorem carry_div_counterexample :
+    ¬ (∀ (b : IBound) (v x : Int), impHolds b v x → impHolds b (assignSem "/=" 2 v) (assignSem "/=" 2 x)) := by
+  intro h
+  have := h .point 6 7 (by decide)
+  revert this
+  decide
+
 /-! Part 3: the fact validator (Model/VFValidator.lean) over MiniC (Model/MiniC.lean) -/
 
 open Cppcheck.MiniC Cppcheck.VFV in
